@@ -31,7 +31,8 @@ var defects = []string{"import-cycle", "import-self", "include-cycle", "typedef-
 	"typedef-cycle-cross-scope", "grouping-cycle-long", "grouping-cycle-via-uses-augment", "grouping-cycle-via-uses-augment-nested",
 	"feature-cycle-second", "dangling-if-feature-second", "dangling-include-foreign", "dangling-include-foreign-nested",
 	"typedef-cycle-local-case", "typedef-cycle-local-augment", "typedef-cycle-local-uses-augment", "typedef-cycle-local-list",
-	"dangling-uses-augment-absolute", "illegal-config-in-remote-grouping", "illegal-default-in-remote-grouping"}
+	"dangling-uses-augment-absolute", "illegal-config-in-remote-grouping", "illegal-default-in-remote-grouping",
+	"dangling-unique-last", "dangling-unique-inner", "dangling-unique-skips-choice", "dangling-unique-via-list", "dangling-unique-non-leaf"}
 
 func str(s string) *sg.TypeSpec { return &sg.TypeSpec{Name: s} }
 
@@ -203,6 +204,27 @@ func inject(mods []*sg.Mod, d string, pick func(n int) int) {
 		host.Nodes[0].Kids = append(host.Nodes[0].Kids, &sg.Node{Kind: "leaf", Name: "dang-leaf", Type: str("string"), IfFeatures: []string{"no-such-feature"}})
 	case "dangling-prefix":
 		host.Nodes[0].Kids = append(host.Nodes[0].Kids, &sg.Node{Kind: "leaf", Name: "dang-leaf", Type: str("nopfx:sometype")})
+	case "dangling-unique-last", "dangling-unique-inner", "dangling-unique-skips-choice", "dangling-unique-via-list", "dangling-unique-non-leaf":
+		// a unique statement whose path does not end at a leaf of the entry: the last or an inner component names
+		// nothing, the path leaves out the choice and case it goes through, crosses a nested list, or ends at a container
+		leaf := func(n string) *sg.Node { return &sg.Node{Kind: "leaf", Name: n, Type: str("string")} }
+		var u string
+		switch d {
+		case "dangling-unique-last":
+			u = []string{"cyc-srv/nosuch", "nosuch", "cyc-srv/cyc-deep/nosuch", "cyc-p cyc-srv/nosuch"}[pick(4)]
+		case "dangling-unique-inner":
+			u = []string{"nosuch/cyc-port", "cyc-srv/nosuch/cyc-x", "nosuch/cyc-deep/cyc-x", "cyc-p nosuch/cyc-port", "nosuch/nosuch2/cyc-x"}[pick(5)]
+		case "dangling-unique-skips-choice":
+			u = []string{"cyc-cc/cyc-z", "cyc-ch/cyc-cc/cyc-z"}[pick(2)]
+		case "dangling-unique-via-list":
+			u = []string{"cyc-srv/cyc-inner/cyc-y", "cyc-srv/cyc-inner"}[pick(2)]
+		default:
+			u = []string{"cyc-srv", "cyc-srv/cyc-deep", "cyc-p cyc-srv/cyc-deep"}[pick(3)]
+		}
+		host.Nodes[0].Kids = append(host.Nodes[0].Kids, &sg.Node{Kind: "list", Name: "cyc-ul", Key: "k", Uniques: []string{u}, Kids: []*sg.Node{leaf("k"), leaf("cyc-p"),
+			{Kind: "container", Name: "cyc-srv", Kids: []*sg.Node{leaf("cyc-port"), {Kind: "container", Name: "cyc-deep", Kids: []*sg.Node{leaf("cyc-x")}},
+				{Kind: "list", Name: "cyc-inner", Key: "k", Kids: []*sg.Node{leaf("k"), leaf("cyc-y")}}}},
+			{Kind: "choice", Name: "cyc-ch", Kids: []*sg.Node{{Kind: "case", Name: "cyc-cs", Kids: []*sg.Node{{Kind: "container", Name: "cyc-cc", Kids: []*sg.Node{leaf("cyc-z")}}}}}}}})
 	case "illegal-config-in-remote-grouping", "illegal-default-in-remote-grouping":
 		// a grouping that is fine where it is written, in a long module, and wrong where a short module uses it: the
 		// error belongs to a statement copied from one file into another
